@@ -31,6 +31,7 @@ def main():
     mod_path, fname, spec_ = sys.argv[1], sys.argv[2], json.loads(sys.argv[3])
     ranges, cap, seed = spec_.get("ranges"), int(spec_.get("max", 300)), int(spec_.get("seed", 0))
     budget = float(spec_.get("budget_s", 120))
+    nrep = max(1, int(spec_.get("replays", 1)))
     spec = importlib.util.spec_from_file_location("cc_harness", mod_path)
     m = importlib.util.module_from_spec(spec)
     sys.modules["cc_harness"] = m
@@ -120,7 +121,8 @@ def main():
         if not ok:
             bad.append({"args": list(args), "why": why[:200]})
     print("@@CC " + json.dumps({"runs": n, "bad": bad[:20], "n_bad": len(bad), "space": total, "whole_space": whole,
-                                 "first": list(cands[len(cands) // 2]) if cands else None}))
+                                 "first": list(cands[len(cands) // 2]) if cands else None,
+                                 "sample": [list(cands[(2 * i + 1) * len(cands) // (2 * nrep)]) for i in range(nrep)] if cands else []}))
 
 
 if __name__ == "__main__":
